@@ -22,6 +22,8 @@ import Mathlib.Tactic.Ring
 import Mathlib.Tactic.NormNum
 import Mathlib.Algebra.BigOperators.Ring.Finset
 import Rsa.Lemmas.C09
+import Rsa.Lemmas.C09Rdm
+import Rsa.Gen.C09
 
 set_option linter.unusedSectionVars false
 set_option linter.unusedVariables false
@@ -487,5 +489,137 @@ example (le : L → L → Bool) (desc : List L) :
   exact mul_one_div_cancel hpos
 
 end examples
+
+
+/-! ### tie to the source text: size recovery of the RDM-resampled sample -/
+
+/-- `RDMs.subsample` hands 2-d vectors to the `RDMs` constructor, which *recovers* the number of
+    conditions from the vector length with `_get_n_from_reduced_vectors` (regenerated from the
+    source on every run as `Rsa.Gen.C09.nFromReduced`).  For every RDM-resampled sample of a stack
+    with at least one condition the recovered number is the source's number of conditions — so
+    the conditions (and the pattern descriptors' length check) survive RDM resampling. -/
+theorem rdm_sample_size_recovered (s : Stack L α) (hwf : s.WF) (hn : 1 ≤ s.nCond)
+    (by_ : String) (desc : List L) (hd : s.rdmDesc.lookup by_ = some desc) (value : List L)
+    (s' : Stack L α) (hs : s.subsample by_ value = some s') :
+    ∀ w ∈ s'.vecs, Rsa.Gen.C09.nFromReduced w.length = s.nCond := by
+  obtain ⟨s'', h1, hwf', hn', _⟩ := rdm_sample_contents s hwf by_ desc hd value
+  rw [hs] at h1
+  obtain rfl : s' = s'' := Option.some.inj h1
+  intro w hw
+  rw [hwf'.vec_len w hw, hn']
+  exact Rsa.Rdm.nFromReduced_triLen s.nCond hn
+
+/-- the hypotheses are met by the example stack (3 conditions) -/
+example : 1 ≤ exStack.nCond := by decide
+
+/-! ### agreement with the RDM container model of property C10 (`Rsa.Core.Rdm`)
+
+C10 models the same two methods inside its container (`Obj.subsample`, `Obj.subsamplePattern`,
+with the constructor checks of `RDMs.__init__`).  On every well-formed object on which C10's
+operation succeeds, the C09 model computes the same stack — so the theorems of this file hold
+for C10's operations as well and the two models cannot drift apart. -/
+
+section rdm_model
+
+open Rsa.Rdm (Obj)
+
+variable {β : Type} [Zero β]
+
+/-- C10's `subsample_pattern` = C09's, on the shared representation -/
+theorem rdm_model_subsamplePattern_agrees (o o' : Obj β) (hwf : o.WF)
+    (hri : o.rdesc.has "index" = true) (hpi : o.pdesc.has "index" = true)
+    (by_ : String) (vals : List Rsa.Rdm.Lbl)
+    (h : o.subsamplePattern by_ vals = some o') :
+    (ofObj o).subsamplePattern by_ vals = some (ofObj o') := by
+  cases hcol : o.pdesc.lookup by_ with
+  | none => simp [Obj.subsamplePattern, Rsa.Rdm.Desc.get, hcol] at h
+  | some col =>
+    simp only [Obj.subsamplePattern, Rsa.Rdm.Desc.get, hcol, Option.bind_eq_bind,
+      Option.bind_some] at h
+    obtain ⟨hn, _, _, hv, _, hrd, hpd, _, _, _⟩ := Rsa.Rdm.mk3d_some h
+    rw [sortNat_selSubsample_eq_patSelection] at hn hv hpd
+    have hcl : col.length = o.nCond := hwf.pshape _ (Rsa.Rdm.Desc.get_mem hcol)
+    have hsel : ∀ i ∈ patSelection col vals, i < o.nCond := fun i hi => by
+      have := lt_of_mem_patSelection hi; omega
+    have hpick : Rsa.Rdm.Desc.pick o.pdesc (patSelection col vals)
+        = extract o.pdesc (patSelection col vals) :=
+      descPick_eq_extract _ _ o.nCond hwf.pshape hsel
+    rw [hpick, addIndex_of_has _ _ (by rw [has_extract]; exact hpi)] at hpd
+    rw [addIndex_of_has _ _ hri] at hrd
+    simp only [Stack.subsamplePattern, ofObj, hcol, Option.some.injEq]
+    rw [hn, hv, hrd, hpd]
+    rfl
+
+/-- C10's `subsample` = C09's, on the shared representation -/
+theorem rdm_model_subsample_agrees (o o' : Obj β) (hwf : o.WF)
+    (hri : o.rdesc.has "index" = true) (hpi : o.pdesc.has "index" = true)
+    (by_ : String) (vals : List Rsa.Rdm.Lbl)
+    (h : o.subsample by_ vals = some o') :
+    (ofObj o).subsample by_ vals = some (ofObj o') := by
+  cases hcol : o.rdesc.lookup by_ with
+  | none => simp [Obj.subsample, Rsa.Rdm.Desc.get, hcol] at h
+  | some col =>
+    simp only [Obj.subsample, Rsa.Rdm.Desc.get, hcol, Option.bind_eq_bind,
+      Option.bind_some, Obj.getitem] at h
+    rw [selSubsample_eq_rdmSelection] at h
+    have hcl : col.length = o.vecs.length := hwf.rshape _ (Rsa.Rdm.Desc.get_mem hcol)
+    have hsel : ∀ i ∈ rdmSelection col vals, i < o.vecs.length := fun i hi => by
+      have := lt_of_mem_rdmSelection hi; omega
+    split at h
+    · have hvp : Rsa.Rdm.pick [] o.vecs (rdmSelection col vals)
+          = pick o.vecs (rdmSelection col vals) := rdmPick_eq_pick _ _ _ hsel
+      have hlen : ∀ v ∈ Rsa.Rdm.pick [] o.vecs (rdmSelection col vals),
+          v.length = triLen o.nCond := by
+        intro v hv
+        rw [hvp] at hv
+        simp only [pick, List.mem_filterMap] at hv
+        obtain ⟨i, _, hi⟩ := hv
+        exact hwf.vlen v (List.mem_of_getElem? hi)
+      obtain ⟨hn, hv, _, hpd, _, hrd⟩ := Rsa.Rdm.mk2d_ncond h o.nCond hwf.ncond hlen
+      have hpick : Rsa.Rdm.Desc.pick o.rdesc (rdmSelection col vals)
+          = extract o.rdesc (rdmSelection col vals) :=
+        descPick_eq_extract _ _ o.vecs.length hwf.rshape hsel
+      rw [hpick, addIndex_of_has _ _ (by rw [has_extract]; exact hri)] at hrd
+      rw [addIndex_of_has _ _ hpi] at hpd
+      rw [hvp] at hv
+      simp only [Stack.subsample, ofObj, hcol, Option.some.injEq]
+      rw [hn, hv, hrd, hpd]
+    · simp at h
+
+/-- … and C10's `subsample_pattern` is defined whenever the key exists and at least one
+    condition is selected (so the agreement theorem is not vacuous; with an empty selection the
+    `RDMs` constructor of C10 rejects the 0-condition result while the bare C09 stack is empty) -/
+theorem rdm_model_subsamplePattern_defined (o : Obj β) (hwf : o.WF) (by_ : String)
+    (col : List Rsa.Rdm.Lbl) (hcol : o.pdesc.lookup by_ = some col) (vals : List Rsa.Rdm.Lbl)
+    (hne : patSelection col vals ≠ []) :
+    ∃ o', o.subsamplePattern by_ vals = some o' := by
+  simp only [Obj.subsamplePattern, Rsa.Rdm.Desc.get, hcol, Option.bind_eq_bind,
+    Option.bind_some, sortNat_selSubsample_eq_patSelection]
+  unfold Rsa.Rdm.mk3d
+  rw [if_pos]
+  · exact ⟨_, rfl⟩
+  · simp only [Bool.and_eq_true, decide_eq_true_eq, List.all_eq_true, beq_iff_eq,
+      Rsa.Rdm.Desc.wellShaped_iff]
+    refine ⟨⟨⟨⟨?_, ?_⟩, ?_⟩, ?_⟩, ?_⟩
+    · exact List.length_pos_iff.mpr hne
+    · rw [List.length_map]; exact List.length_pos_iff.mpr hwf.nrdm
+    · intro w hw
+      simp only [List.mem_map] at hw
+      obtain ⟨v, _, rfl⟩ := hw
+      rw [reindexVec_eq_subVec]; exact subVec_length _ _ _
+    · intro kv hkv
+      rw [List.length_map]; exact hwf.rshape kv hkv
+    · intro kv hkv
+      obtain ⟨kv0, _, rfl⟩ := Rsa.Rdm.Desc.mem_pick hkv
+      exact Rsa.Rdm.pick_length _ _ _
+
+/-- a selection is non-empty as soon as one requested value occurs in the descriptor -/
+example : patSelection [Rsa.Rdm.Lbl.int 5, Rsa.Rdm.Lbl.int 4] [Rsa.Rdm.Lbl.int 5] ≠ [] := by
+  intro h
+  have := count_patSelection [Rsa.Rdm.Lbl.int 5, Rsa.Rdm.Lbl.int 4] [Rsa.Rdm.Lbl.int 5] 0 (by decide)
+  rw [h] at this
+  simp at this
+
+end rdm_model
 
 end Rsa.Props.C09
